@@ -702,6 +702,20 @@ func sizesFor(r *rand.Rand, maxLen int, n int, withMax bool) []int {
 	return out
 }
 
+// bail: once a violation has been recorded, the regular scenario loops go on for at most another
+// 20 s (a tree that loses packets makes every further scenario wait for its own time-outs; the
+// verdict is decided, the remaining scenarios would only repeat it)
+var firstViolationAt atomic.Int64
+
+func bail() bool {
+	if run.NumViolations() == 0 {
+		return false
+	}
+	now := time.Now().UnixNano()
+	firstViolationAt.CompareAndSwap(0, now)
+	return now-firstViolationAt.Load() > int64(20*time.Second)
+}
+
 func main() {
 	appchild.MaybeChild()
 	run = vlib.Start("C07")
@@ -723,7 +737,7 @@ func main() {
 			go func(si, rep int, srv *server) {
 				defer wg.Done()
 				rr := rand.New(rand.NewSource(run.Seed*7919 + int64(ml) + int64(si) + int64(rep)*1000003))
-				for k := rep; k < nPer; k += replicas {
+				for k := rep; k < nPer && !bail(); k += replicas {
 					n := []int{1, 2, 3, 5, 10, 40, 200}[k%7]
 					kind := cutKinds[k%len(cutKinds)]
 					withMax := k%10 == 3
@@ -752,7 +766,7 @@ func main() {
 			go func(rep int) {
 				defer wg.Done()
 				rr := rand.New(rand.NewSource(run.Seed*104729 + int64(ml) + int64(rep)*1000003))
-				for k := rep; k < nPer; k += replicas {
+				for k := rep; k < nPer && !bail(); k += replicas {
 					n := []int{1, 2, 3, 5, 10, 40, 120}[k%7]
 					kind := cutKinds[(k+3)%len(cutKinds)]
 					withMax := k%10 == 5
